@@ -4,9 +4,9 @@ package eni
 
 import (
 	"context"
-	"os"
 	"fmt"
 	"net/netip"
+	"os"
 	"sort"
 	"strings"
 	"testing"
@@ -31,12 +31,12 @@ type pwPre struct {
 }
 
 type pwCfg struct {
-	V4, V6                          bool
-	Cap, Batch, MinIdle, MaxIdle    int
-	Slots                           int // number of secondary Local slots in total (attached + empty)
-	Pre                             []pwPre
-	Policy                          daemon.EniSelectionPolicy
-	Stored                          map[string]int // pod -> index of pre ENI whose first idle secondary address it holds at start (restart)
+	V4, V6                       bool
+	Cap, Batch, MinIdle, MaxIdle int
+	Slots                        int // number of secondary Local slots in total (attached + empty)
+	Pre                          []pwPre
+	Policy                       daemon.EniSelectionPolicy
+	Stored                       map[string]int // pod -> index of pre ENI whose first idle secondary address it holds at start (restart)
 }
 
 func (c pwCfg) String() string {
@@ -94,13 +94,13 @@ type pw struct {
 	wg     vrt.WaitGroup
 	preIDs []string
 
-	live      map[string]*LocalIPResource // pod -> acknowledged, not yet torn down
-	inflight  map[string]int
-	failed    map[string]int
-	removed   map[netip.Addr]int // remotely removed address -> cloud log seq at removal
-	cctx      map[string]context.Context
-	ccancel   map[string]context.CancelFunc
-	events    []string
+	live       map[string]*LocalIPResource // pod -> acknowledged, not yet torn down
+	inflight   map[string]int
+	failed     map[string]int
+	removed    map[netip.Addr]int // remotely removed address -> cloud log seq at removal
+	cctx       map[string]context.Context
+	ccancel    map[string]context.CancelFunc
+	events     []string
 	unassigned map[netip.Addr]bool
 }
 
@@ -173,7 +173,9 @@ type IPSet2Like struct{ v4, v6 netip.Addr }
 
 func (w *pw) ev(f string, a ...any) { w.events = append(w.events, fmt.Sprintf(f, a...)) }
 
-func (w *pw) hist() string { return strings.Join(w.events, " ; ") + " || cloud: " + strings.Join(w.cloud.LogStrings(), " ") }
+func (w *pw) hist() string {
+	return strings.Join(w.events, " ; ") + " || cloud: " + strings.Join(w.cloud.LogStrings(), " ")
+}
 
 func resIPs(r *LocalIPResource) []netip.Addr {
 	var out []netip.Addr
@@ -597,11 +599,16 @@ func pwBody(sc *pwScenario, oracle map[string]bool) func(x *vrt.Exec) {
 		if sc.Heal > 0 {
 			w.cloud.FaultsOn = false
 			vrt.Freeze(true)
-			for i := 0; i < sc.Heal; i++ {
+			// Go's map iteration is random and the balancer relies on that to make progress (Dispose may pick the
+			// undisposable primary address first); "returns to the band" is therefore judged under a FAIR
+			// iteration order: the healthy rounds cycle through sorted / reversed / rotated order
+			for i := 0; i < 3*sc.Heal; i++ {
+				vrt.SetOrderMode(i % 3)
 				w.mgr.syncPool(w.ctx)
 				vrt.WaitQuiescent()
 				vrt.Advance(11 * time.Minute) // past every allocation inhibit
 			}
+			vrt.SetOrderMode(0)
 			vrt.Freeze(false)
 		}
 		w.checkQuiescent()
@@ -614,10 +621,10 @@ func pwBody(sc *pwScenario, oracle map[string]bool) func(x *vrt.Exec) {
 				lo = capacity - inuse
 			}
 			if idle < lo {
-				x.Failf("C07/idle-below-min-watermark", "after %d healthy balancer rounds idle=%d < min(minIdle=%d, capacity-inUse=%d); %s", sc.Heal, idle, c.MinIdle, capacity-inuse, w.hist())
+				x.Failf("C07/idle-below-min-watermark", "after %d healthy balancer rounds idle=%d < min(minIdle=%d, capacity-inUse=%d); %s", 3*sc.Heal, idle, c.MinIdle, capacity-inuse, w.hist())
 			}
 			if idle-undisp > c.MaxIdle && idle > lo {
-				x.Failf("C07/idle-above-max-watermark", "after %d healthy balancer rounds idle=%d (of which %d undisposable primaries) > maxIdle=%d; %s", sc.Heal, idle, undisp, c.MaxIdle, w.hist())
+				x.Failf("C07/idle-above-max-watermark", "after %d healthy balancer rounds (sorted/reversed/rotated map order in turn) idle=%d (of which %d undisposable primaries) > maxIdle=%d; %s", 3*sc.Heal, idle, undisp, c.MaxIdle, w.hist())
 			}
 		}
 		// outcome = what the clients observed (canonical)
